@@ -11,8 +11,9 @@ import (
 
 type tr struct {
 	recv, i, j string
-	ent        map[string]string // Go variable -> "a" | "b"
-	val        map[string]lv     // Go variable -> translated expression
+	ent        map[string]string        // Go variable -> "a" | "b"
+	val        map[string]lv            // Go variable -> translated expression
+	getters    map[string]map[string]lv // Go variable -> zero-argument method -> value (c35_translate.go)
 }
 
 type lv struct {
@@ -28,6 +29,9 @@ func (t *tr) expr(x ast.Expr) (lv, error) {
 	case *ast.BasicLit:
 		if x.Kind == token.INT {
 			return lv{"(" + x.Value + " : Int)", false}, nil
+		}
+		if s, ok := charLit(x); ok {
+			return lv{s, false}, nil
 		}
 	case *ast.Ident:
 		if v, ok := t.val[x.Name]; ok {
@@ -55,6 +59,11 @@ func (t *tr) expr(x ast.Expr) (lv, error) {
 		sel, ok := x.Fun.(*ast.SelectorExpr)
 		if ok && len(x.Args) == 0 {
 			if id, ok := sel.X.(*ast.Ident); ok {
+				if g, ok := t.getters[id.Name]; ok {
+					if v, ok := g[sel.Sel.Name]; ok {
+						return v, nil
+					}
+				}
 				if who, ok := t.ent[id.Name]; ok {
 					switch sel.Sel.Name {
 					case "GetOffset":
